@@ -652,5 +652,143 @@ class SqInit(Unit):
         return {"ran": True, "failed": False, "searched": 8}
 
 
+def cwv_spec(ndim, numofq, onlypositive):
+    """the documented default set: every integer vector of [-floor(n/2), floor(n/2))^d (the n values per axis of the documented range)
+    that is non-zero and has an integer norm, once; onlypositive=True keeps the vectors with all components >= 0; 'x'/'y'/'z' keeps
+    the positive multiples of that axis vector.  Sorted list of tuples."""
+    import itertools
+    import math
+    nh = int(numofq / 2)
+    out = []
+    for v in itertools.product(range(-nh, nh), repeat=ndim):
+        k = sum(c * c for c in v)
+        if k == 0 or math.isqrt(k) ** 2 != k:
+            continue
+        if onlypositive is True and min(v) < 0:
+            continue
+        if isinstance(onlypositive, str):
+            ax = "xyz".index(onlypositive)
+            if not (v[ax] > 0 and all(c == 0 for j, c in enumerate(v) if j != ax)):
+                continue
+        out.append(tuple(v))
+    return sorted(out)
+
+
+class ChooseWaveVector(Unit):
+    """BOUNDED stand-in (concrete numofq, the real AST executed by the engine with every loop unrolled): the returned rows are exactly
+    cwv_spec.  The unbounded proof needs a written invariant for the compaction loop (ghost rank arrays) and is not done."""
+    module = WV
+    qualname = "choosewavevector"
+    prop = "C04"
+    SIZES = {2: (0, 1, 2, 3, 5, 8, 12), 3: (0, 1, 3, 4, 6)}
+    OPTS = {2: (False, True, "x", "y"), 3: (False, True, "x", "y", "z")}
+
+    def cases(self):
+        return [f"bounded/d={d}/numofq={n}/onlypositive={o}" for d in (2, 3) for n in self.SIZES[d] for o in self.OPTS[d]]
+
+    @staticmethod
+    def parse(case):
+        p = dict(x.split("=") for x in case.split("/")[1:])
+        o = p["onlypositive"]
+        return int(p["d"]), int(p["numofq"]), (True if o == "True" else False if o == "False" else o)
+
+    def setup(self, ctx, case):
+        d, n, o = self.parse(case)
+        return [d, n, o], {}, {"d": d, "n": n, "o": o}
+
+    def clause_names(self, case):
+        return ["rows=documented-set"]
+
+    def ensures(self, ctx, case, inp, out):
+        r = out.value
+        d = inp["d"]
+        want = cwv_spec(d, inp["n"], inp["o"])
+        ok = isinstance(r, A.Arr) and r.ndim == 2 and sv.is_conc(r.shape[0]) and int(r.shape[0]) == len(want) and A.dim_eq_syntactic(r.shape[1], d) \
+            and r.dtype == "int"
+        if ok:
+            rows = []
+            for t in range(len(want)):
+                row = tuple(r.get((t, c)) for c in range(d))
+                if not all(sv.is_conc(x) for x in row):
+                    ok = False
+                    break
+                rows.append(tuple(int(x) for x in row))
+            ok = ok and sorted(rows) == want
+        yield "rows=documented-set", bool(ok)
+
+    def replay(self, case, clause, model, seed):
+        return _replay_cwv()
+
+
+def _replay_cwv():
+    import importlib
+
+    import numpy as np
+    W = importlib.import_module(WV)
+    n_checked = 0
+    for d in (2, 3):
+        for n in range(0, 15 if d == 2 else 11):
+            for o in ChooseWaveVector.OPTS[d]:
+                try:
+                    got = W.choosewavevector(d, n, o)
+                except Exception as e:
+                    return {"ran": True, "failed": True, "inputs": {"ndim": d, "numofq": n, "onlypositive": o}, "detail": f"raises {type(e).__name__}: {e}"}
+                want = cwv_spec(d, n, o)
+                n_checked += 1
+                rows = sorted(tuple(int(x) for x in r) for r in np.asarray(got).reshape(-1, d))
+                if rows != want:
+                    extra = [r for r in rows if r not in want][:3]
+                    missing = [r for r in want if r not in rows][:3]
+                    return {"ran": True, "failed": True, "inputs": {"ndim": d, "numofq": n, "onlypositive": o},
+                            "detail": f"{len(rows)} rows, expected {len(want)}; not in the documented set: {extra}; missing: {missing}"}
+    return {"ran": True, "failed": False, "searched": n_checked}
+
+
 UNITS = [Method(K) for K in (5, 4, 3, 2, 1)] + [Dispatch(), SqInit()]
+BOUNDED_UNITS = [ChooseWaveVector()]
+
+
+def _bounded_task(case):
+    import os
+
+    from pyvc import interp, vc
+    interp.REPO = os.environ.get("PYVC_REPO", "/repo")
+    r = vc.run_unit(BOUNDED_UNITS[0], case, "quick")
+    bad = [o for o in r["obligations"] if o["status"] != "PROVED"]
+    return {"case": case, "error": r.get("error"), "failed": [o["name"] for o in bad], "n": len(r["obligations"])}
+
+
+def extra_checks(tier, seed, repo):
+    """bounded stand-in for choosewavevector (reported under `bounded`, never counted as proved; a failing bounded case is reported
+    as a failing obligation so that a broken default wave-vector set is a VIOLATION) + lemmas on fresh symbols"""
+    import multiprocessing as mp
+    import os
+    from pyvc.vc import prove_lemmas
+    cases = BOUNDED_UNITS[0].cases()
+    jobs = max(1, min(int(os.environ.get("PYVC_JOBS", "16")), len(cases)))
+    with mp.get_context("fork").Pool(jobs) as pool:
+        res = pool.map(_bounded_task, cases, chunksize=4)
+    bounded, obligations = [], []
+    for r in res:
+        ok = not r["error"] and not r["failed"]
+        bounded.append({"unit": f"choosewavevector[{r['case']}]", "sizes": r["case"], "verdict": "holds" if ok else "FAILS",
+                        "detail": r["error"] or r["failed"]})
+        if not ok:
+            obligations.append({"name": f"choosewavevector[{r['case']}]:rows=documented-set(bounded)", "status": "UNDECIDED" if r["error"] else "REFUTED",
+                                "ms": 0, "backends": ["engine-bounded"], "queries": 1, "replayable": True,
+                                "failed": [{"status": "REFUTED", "reason": str(r["error"] or r["failed"]), "backend": "engine-bounded", "ms": 0}]})
+    return {"obligations": obligations + prove_lemmas("C04", lemmas()), "bounded": bounded}
+
+
+def replay_extra(rec):
+    if "choosewavevector" in rec.get("obligation", ""):
+        return _replay_cwv()
+    return {"ran": False, "failed": False, "error": "no replay for this obligation"}
+
+
+def lemmas():
+    out = []
+    return out
+
+
 MANIFEST = {"text": "", "note": ""}
